@@ -9,7 +9,7 @@ from . import values as V
 from .values import Seq, SetV, DictV, Obj, ObjSeq, Func, Module, RangeV, OutOfSubset, Opaque, OptV, is_z3
 
 BUILTINS = {"len", "range", "list", "tuple", "max", "min", "abs", "sum", "int", "float", "bool", "map", "zip",
-            "enumerate", "sorted", "reversed", "isinstance", "set", "round", "all", "any", "dict", "str"}
+            "enumerate", "sorted", "reversed", "isinstance", "set", "round", "all", "any", "dict", "str", "object"}
 MODULES = {"np": "np", "numpy": "np", "math": "math", "itertools": "itertools", "time": "time", "sys": "sys", "logging": "logging", "sklearn": "sklearn", "LA": "np.linalg"}
 
 POW2 = z3.Function("pow2", z3.IntSort(), z3.IntSort())
